@@ -27,7 +27,7 @@ Proof. exact tv_sound. Qed.
 Print Assumptions C02_validated_translation.
 
 (** the event trace is part of the I/O state *)
-Corollary C02_same_trace : forall w fuse ir (p : bprog) cs e budget,
+Theorem C02_same_trace : forall w fuse ir (p : bprog) cs e budget,
   tv_check w fuse ir (bp_code p) cs = true ->
   forall fuel si', ir_run w e false budget fuel ir = Done si' ->
   exists fuel' sb', bc_run w e false budget fuel' p = Done sb' /\ trace (bc_io sb') = trace (ir_io si').
